@@ -65,3 +65,12 @@ package bchutil
 //@   loop 3 invariant 0 <= i && i <= valuesSize
 //@   loop 3 invariant forall j :: 0 <= j && j < i ==> str[j+prefixSize+1] < 128 && values[j] < 32 && values[j] == u8(CharsetRev[str[j+prefixSize+1]])
 //@   loop 3 decreases valuesSize - i
+
+//@ func bchutil.(*Tx).Hash
+//@   requires t.msgTx != nil
+//@   ensures result != nil && t.txHash == result && (old(t.txHash) != nil ==> result == old(t.txHash))
+//@   modifies t.txHash
+
+//@ func bchutil.(*Tx).MsgTx
+//@   ensures result == t.msgTx
+//@   modifies nothing
